@@ -19,7 +19,7 @@ import (
 // both directions.
 
 func init() {
-	register(&Scenario{Name: "groups", Props: []string{"C12"}, Run: runGroups})
+	register(&Scenario{Name: "groups", Props: []string{"C12", "C17"}, Run: runGroups})
 }
 
 type grpEvent struct {
@@ -363,6 +363,27 @@ func runGroups(e *Env) {
 	for i := 0; i < n; i++ {
 		if !reflect.DeepEqual(gotIn[i], expIn[i]) {
 			e.Violate("C12", "inbound-event-differs", "group Inbound yielded %s at position %d, expected %s", gotIn[i], i, expIn[i])
+			// C17: the same events in another order?
+			if len(gotIn) == len(expIn) {
+				used := make([]bool, len(expIn))
+				same := true
+				for _, g := range gotIn {
+					found := false
+					for j, x := range expIn {
+						if !used[j] && reflect.DeepEqual(g, x) {
+							used[j], found = true, true
+							break
+						}
+					}
+					if !found {
+						same = false
+						break
+					}
+				}
+				if same {
+					e.Violate("C17", "group-inbound-reordered", "the group Inbound channel yielded the accepted events in another order: position %d holds %s, accepted there was %s", i, gotIn[i], expIn[i])
+				}
+			}
 			break
 		}
 	}
